@@ -358,7 +358,7 @@ def mirror_check(c, prop_file, monitors, what, quick=(40, 30), thorough=(600, 40
                  {"batch_seed": k["batch_seed"], "batch_case": k["batch_idx"], "ops": len(k["steps"]), "failing_step": step, "monitor": m,
                   "monitor_value": val, "steps": [{"op": op, "impl_result": res} for op, res, _ in k["steps"][:upto]],
                   "impl_observation_at_failure": k["steps"][upto - 1][2] if k["steps"] else None,
-                  "how": "bin/h_mirror -seed %d -cases %d -ops %d (case %d)" % (k["batch_seed"], k["batch_idx"] + 1, len(k["steps"]), k["batch_idx"])})
+                  "how": "bin/h_mirror -seed %d -cases %d -ops %d %s (case %d)" % (k["batch_seed"], k["batch_idx"] + 1, nops, " ".join(["-replay"] + list(extra)), k["batch_idx"])})
     concrete = any(v[3] for v in c.violations)  # a violation with a failing input (known findings excluded)
     if corr_bad and not concrete:
         k, corr = corr_bad[0]
